@@ -65,7 +65,7 @@ CHECKS = {
     "C01": {
         "engine": "src2smt (engine Z) + symx (engine P)",
         "technique": "source-to-SMT: partial evaluation of the current ASTNode.__post_init__ into a QF_S string term for the digest pre-image (real generated accessors answer on a skeleton instance), injectivity / separation / type-tag obligations discharged by cvc5 with z3 cross-check, sat models replayed on the real constructor; plus symx exploration of single-edit tree pairs",
-        "text": "For 14 model classes the content-id pre-image generated from the current source is injective in the comparable property values (all strings up to 24 | 40 code units, ALL integers via their canonical decimal rendering, bools, None) and in the child content ids for every pair of child layouts up to width 2 | 3, separates classes (identical layouts, prefix-related names), separates type tags, and mentions no origin / id / non-comparable variable (FRAME); the one satisfiable obligation family is the known separator collision, whose complement (strings without ')') is proved unsat. Single edits of base recipes and all small pairs agree with structural equality.",
+        "text": "For 14 model classes the content-id pre-image generated from the current source is injective in the comparable property values (all strings up to 24 | 40 code units, ALL integers via their canonical decimal rendering, bools, None) and in the child content ids for every pair of child layouts up to width 2 | 3, separates classes (identical layouts, prefix-related names), separates type tags, and mentions no origin / id / non-comparable variable (FRAME); the registry is an environment (every lookup under the symbolic id may miss or hit an arbitrary registered node): content_id is assigned from the node's own pre-image under every registry answer, and where the code copies a registered node's digest the solver is asked for two nodes with equal id pre-images and different content pre-images (REGDEP; a model is replayed with the first node kept registered); the one satisfiable obligation family is the known separator collision, whose complement (strings without ')') is proved unsat. Single edits of base recipes and all small pairs agree with structural equality.",
         "design_ref": "DESIGN.md section 4, C01",
         "note": "trusted: cvc5 1.4.0 / z3 5.1.0, the partial evaluator (validated on every run against the real __post_init__ with blake2b's input recorded), H injective (no blake2b collisions), UTF-8 injective, hexdigest format of child ids",
     },
